@@ -45,7 +45,7 @@ theorem childCtx_ok (p : Params K) (pv : p.Valid) (h : Nat) (keys : List K) (kid
       (0 < slot → cctx.left = kids[slot - 1]?) ∧ (slot < keys.length → cctx.right = kids[slot + 1]?) ∧
       cctx.off = ctx.off + ((kids.take slot).map (leafCount h)).sum := by
   have hi4 := pv.inner4
-  have hmin : 2 ≤ p.innerMin := by simp [Params.innerMin]; omega
+  have hmin : 2 ≤ p.innerMin := by simp [Params.innerMin, Gen.innerSlotmin]; omega
   -- the border children of the neighbours
   have hleft : ∃ ml : Option (BNode K V),
       myLeft kids ctx slot = some ml ∧ (∀ L, ml = some L → Shape p h L) ∧
@@ -243,7 +243,7 @@ theorem eraseInLeaf_ok (p : Params K) (pv : p.Valid) (tg : Target K) (es : List 
     (hhit : HitAt p tg 0 (.leaf es) ctx.off slot) :
     ∃ out, eraseInLeaf p es slot ctx = some out ∧ EraseOK p tg 0 (.leaf es) ctx out := by
   have hl4 := pv.leaf4
-  have hmin : 2 ≤ p.leafMin := by simp [Params.leafMin]; omega
+  have hmin : 2 ≤ p.leafMin := by simp [Params.leafMin, Gen.leafSlotmin]; omega
   simp only [Shape] at hs
   have hlen : (es.eraseIdx slot).length = es.length - 1 := List.length_eraseIdx_of_lt hslot
   obtain ⟨e, he⟩ := getLast?_isSome_of_length_pos (es.eraseIdx slot) (by omega)
